@@ -45,3 +45,30 @@ def _strip_g4_comments(s):
     s = re.sub(r'/\*.*?\*/', lambda m: '\n' * m.group(0).count('\n'), s, flags=re.S)
     s = re.sub(r'//[^\n]*', '', s)
     return s
+
+
+# --------------------------------------------------------------------------- verbatim tokens through the plain encodings (C03.R3, C12.R4)
+def plain_encodings_keep_verbatim_text(ctx, rule):
+    """The plain / basic tokenizers delete (or cut at) the separator characters.  Tokens that export their stored text
+    (lyrics, comments, error tokens, ...) never contain separators inserted by kernpy, so their text must bypass that
+    post-processing - otherwise a cell whose own text contains '@' or the middle dot is altered."""
+    tk = N.TOKENIZERS
+    sites = []
+    for cls, kind in (('KernTokenizer', 'deletes'), ('BkernTokenizer', 'deletes'), ('AKernTokenizer', 'deletes'), ('BekernTokenizer', 'cuts at')):
+        f = ctx.prog.func(f'{tk}.{cls}.tokenize')
+        tok = f.params[1]
+        guarded = any(isinstance(n, ast.Call) and F.is_name(n.func, 'isinstance') and n.args and F.is_name(n.args[0], tok)
+                      for n in walk_local(f.node))
+        post = any(isinstance(n, ast.Call) and isinstance(n.func, ast.Attribute) and n.func.attr in ('replace', 'split', 'translate')
+                   for n in walk_local(f.node))
+        if post and not guarded:
+            sites.append((f, kind))
+    if sites:
+        f = sites[0][0]
+        ctx.violation(rule, f.loc, f'{tk}.KernTokenizer.tokenize', 'plain-encoding-alters-verbatim-text',
+                      f'{", ".join(s_[0].cls.name for s_ in sites)} post-process the text of EVERY token, also of tokens that export their '
+                      f'stored text verbatim (lyrics, comments, error tokens): a cell whose own text contains `@` or the middle dot is '
+                      f'altered in the plain / basic encodings (`col·la` -> `colla`, malformed `4c·` -> `4c`)')
+    else:
+        ctx.holds(rule, f'{ctx.prog.module(tk).relpath}:1', f'{tk}.KernTokenizer.tokenize',
+                  'the plain / basic tokenizers post-process only tokens whose export inserts separators')
